@@ -512,7 +512,21 @@ def config_cli(ctx, res):
         pipes["p"] = stages
         jobs.append({"id": k, "files": {"cfg.json": clilib.jcfg({"contexts": {"broken": {"up": ["exit 7"]}}, "tasks": tasks, "pipelines": pipes})}, "argv": ["-c", "cfg.json", "--raw", "run", "pipeline", "p"],
                      "keep": ["m.%d" % i for i in range(n)], "timeout": 25, "sts": sts})
-    out = clilib.run_cli(ctx.workdir + "/cfgcli", jobs, timeout=25)
+    # one failing pipeline included by two stages: the first tolerates its failure, the second (after it) does not - the second inclusion
+    # fails like the first run of that pipeline did, its dependant is cancelled, the run fails
+    twice = {"tasks": {"bad": {"command": ['touch "$PROJ/m.bad"; exit 3']}, "after": {"command": ['touch "$PROJ/m.after"']}, "side": {"command": ['touch "$PROJ/m.side"']}},
+             "pipelines": {"pin": [{"task": "bad"}],
+                           "p": [{"pipeline": "pin", "name": "n1", "allow_failure": True}, {"pipeline": "pin", "name": "n2", "depends_on": ["n1"]},
+                                 {"task": "after", "depends_on": ["n2"]}, {"task": "side", "depends_on": ["n1"]}]}}
+    tj = {"id": len(jobs), "files": {"cfg.json": clilib.jcfg(twice)}, "argv": ["-c", "cfg.json", "--raw", "run", "pipeline", "p"], "keep": ["m.bad", "m.after", "m.side"], "timeout": 25}
+    out = clilib.run_cli(ctx.workdir + "/cfgcli", jobs + [tj], timeout=25)
+    r = out[tj["id"]]
+    res.evaluations += 1
+    res.count("config-cli")
+    res.nontrivial_keys.add("failing-pipeline-included-twice")
+    if r["timeout"] or clilib.crashed(r) or r["rc"] == 0 or sorted(r["files"]) != ["m.bad", "m.side"]:
+        res.violations.append({"class": None, "what": "a failing pipeline included twice (first tolerated, then not): the second inclusion must fail too - its dependant is cancelled and the run fails",
+                               "case": {"kind": "config-cli", "config": twice}, "observed": {"rc": r["rc"], "ran": sorted(r["files"]), "err": (r.get("err") or "")[-300:]}})
     items = []
     for j in jobs:
         r = out[j["id"]]
